@@ -81,6 +81,12 @@ pub fn build_local_search_solver(
          start_time: Option<Instant>,
          _: Option<stdtime::Duration>,
          _: Option<u32>| {
+            #[cfg(rssched_verif)]
+            crate::verif_hooks::local_search_step(
+                iteration_counter,
+                current_solution,
+                previous_solution,
+            );
             println!(
                 "Iteration {} - Swap: {}",
                 iteration_counter,
